@@ -62,7 +62,9 @@ PROGRAMS = [
 ]
 ENCODINGS = [('utf-8', '', False), ('utf-8', '', True), ('latin-1', '# -*- coding: latin-1 -*-', False), ('cp1252', '# coding: cp1252', False),
              ('shift_jis', '# coding=shift_jis', False), ('utf-8', '# coding: utf-8', False), ('utf-8', '# coding: utf-8', True),
-             ('latin-1', '# coding: latin-1', True)]        # the last one contradicts its BOM: the interpreter rejects it
+             ('latin-1', '# coding: latin-1', True),        # contradicts its BOM: the interpreter rejects it
+             ('utf-8', '# coding: no-such-codec', False),   # unknown codec: rejected
+             ('latin-1', '# coding: utf-8', False)]         # bytes that are not valid in the declared encoding: rejected when non-ASCII is present
 NEWLINES = ['\n', '\r\n', '\r', 'mixed', 'nofinal']
 SHEBANGS = [None, '#!/usr/bin/env python', '#!/usr/bin/env python  \t', '#!/usr/bin/\u00e9nv python', '#!', '#! /bin/sh -x',
             # characters that str.splitlines() treats as line boundaries but the interpreter does not
